@@ -161,17 +161,34 @@ pub fn scenario(idx: usize, seed: u64, reqs_per_task: usize) -> ScenarioResult {
     let got: Arc<Mutex<HashMap<u64, RespDigest>>> = Default::default();
     let next_id = Arc::new(AtomicU64::new(1));
     let kind = rng.gen_range(0..3u8);
+    // ONE layered service; every task (and every clone inside a task) is a clone of it, so whatever
+    // the authorizer or the layer share between clones is shared across the 4 worker threads
+    enum Built {
+        Allow(anemo_tower::auth::RequireAuthorization<Inner, LoggedAllowed>),
+        Script(anemo_tower::auth::RequireAuthorization<Inner, Scripted>),
+    }
+    let built = if use_allowlist {
+        let auth = LoggedAllowed { inner: AllowedPeers::new(allowed.clone()), logs: logs.clone() };
+        Built::Allow(RequireAuthorizationLayer::new(auth).layer(Inner(logs.clone())))
+    } else {
+        let auth = Scripted { logs: logs.clone(), kind };
+        Built::Script(RequireAuthorizationLayer::new(auth).layer(Inner(logs.clone())))
+    };
     rt.block_on(async {
         let mut hs = Vec::new();
+        let start = Arc::new(tokio::sync::Barrier::new(ntasks));
         for t in 0..ntasks {
-            let (logs, senders, sent, got, next_id) = (logs.clone(), senders.clone(), sent.clone(), got.clone(), next_id.clone());
-            let allowed = allowed.clone();
+            let (senders, sent, got, next_id, start) = (senders.clone(), sent.clone(), got.clone(), next_id.clone(), start.clone());
             let mut rng = StdRng::seed_from_u64(seed ^ ((t as u64) << 24));
-            hs.push(tokio::spawn(async move {
-                // clones of the layered service, used round-robin with poll_ready/call interleaved
-                macro_rules! drive {
-                    ($svc:expr) => {{
-                        let mut clones: Vec<_> = (0..nclones).map(|_| $svc.clone()).collect();
+            macro_rules! drive {
+                ($svc:expr) => {{
+                    let svc = $svc.clone();
+                    hs.push(tokio::spawn(async move {
+                        // clones of the layered service, used round-robin with poll_ready/call interleaved
+                        let mut clones: Vec<_> = (0..nclones).map(|_| svc.clone()).collect();
+                        let mut my_sent = Vec::with_capacity(reqs_per_task);
+                        let mut my_got = Vec::with_capacity(reqs_per_task);
+                        start.wait().await;
                         for i in 0..reqs_per_task {
                             let id = next_id.fetch_add(1, Ordering::SeqCst);
                             let who = senders[rng.gen_range(0..senders.len())];
@@ -182,29 +199,26 @@ pub fn scenario(idx: usize, seed: u64, reqs_per_task: usize) -> ScenarioResult {
                             if let Some(p) = who {
                                 req = req.with_extension(p);
                             }
-                            sent.lock().unwrap().insert(id, who);
+                            my_sent.push((id, who));
                             let k = i % clones.len();
                             // readiness of another clone is polled in between
                             let other = (k + 1) % clones.len();
                             let _ = clones[other].ready().await;
                             let r = clones[k].ready().await.unwrap().call(req).await.unwrap();
-                            got.lock().unwrap().insert(id, digest(&r));
+                            my_got.push((id, digest(&r)));
                             if i % 64 == 0 {
                                 tokio::task::yield_now().await;
                             }
                         }
-                    }};
-                }
-                if use_allowlist {
-                    let auth = LoggedAllowed { inner: AllowedPeers::new(allowed), logs: logs.clone() };
-                    let svc = RequireAuthorizationLayer::new(auth).layer(Inner(logs.clone()));
-                    drive!(svc);
-                } else {
-                    let auth = Scripted { logs: logs.clone(), kind };
-                    let svc = RequireAuthorizationLayer::new(auth).layer(Inner(logs.clone()));
-                    drive!(svc);
-                }
-            }));
+                        sent.lock().unwrap().extend(my_sent);
+                        got.lock().unwrap().extend(my_got);
+                    }));
+                }};
+            }
+            match &built {
+                Built::Allow(svc) => drive!(svc),
+                Built::Script(svc) => drive!(svc),
+            }
         }
         for h in hs {
             let _ = h.await;
